@@ -15,7 +15,7 @@ WORDS = ['&amp;', '&euro;', '<![CDATA[', ']]>', '&#65;', '<a>', '</a>', '<a/>', 
 INTS = [0, 1, -5, 12345678901234567890]
 HALVES = [1, -3, 4]
 INDENTS = [4, 0, 1, 2, 7, -1]
-ENCODINGS = ["utf-8", None, "UTF-8", ""]
+ENCODINGS = ["utf-8", None, "UTF-8", "", "ascii", "latin-1"]
 QUOTES = ['"', "'"]
 CD_OPEN, CD_CLOSE = "<![CDATA[", "]]>"
 
@@ -143,6 +143,20 @@ def is_ctree(ct):
     return False
 
 
+def wf_parse(s, enc):
+    """a conforming parser on the exported document: as bytes in the declared encoding (utf-8 when none / an unknown one is
+    declared); a document whose text the declared encoding cannot hold exists as text only and is parsed as text"""
+    import codecs
+    try:
+        codecs.lookup(enc or "utf-8")
+        data = s.encode(enc or "utf-8")
+    except LookupError:
+        data = s.encode("utf-8")
+    except UnicodeEncodeError:
+        data = s
+    return ET.fromstring(data)
+
+
 class C12(Prop):
     id = "C12"
     props_file = "Props/C12.v"
@@ -258,7 +272,7 @@ class C12(Prop):
         strings = [""]
         for n in range(1, maxlen + 1):
             strings += ["".join(t) for t in itertools.product(CHARS, repeat=n)]
-        strings += WORDS + CHARS_MORE + [CD_OPEN + s + CD_CLOSE for s in ["", "<q>", "a]]", "]]>", " x ", "&"]]
+        strings += WORDS + CHARS_MORE + [CD_OPEN + s + CD_CLOSE for s in ["", "<q>", "a]]", "]]>", " x ", "&", "é€", "цена", "a € b"]]
         for i, s in enumerate(strings):
             ind, enc, q = combos[i % len(combos)]
             o = {"indent": ind, "encoding": enc, "quote": q}
@@ -465,7 +479,7 @@ class C12(Prop):
                 raise TypeError("to_xml returned %s" % type(s).__name__)
             ob = {"ok": ["s", s]}
             try:
-                ET.fromstring(s.encode("utf-8"))
+                wf_parse(s, o["encoding"])
                 ob["wf"] = None
             except Exception as e:  # noqa
                 ob["wf"] = "%s: %s" % (type(e).__name__, str(e)[:80])
@@ -484,7 +498,7 @@ class C12(Prop):
             if shaped(i["tree"]):
                 # well-formed for a conforming parser?
                 try:
-                    ET.fromstring(s.encode("utf-8"))
+                    wf_parse(s, o["encoding"])
                     ob["wf"] = None
                 except Exception as e:  # noqa
                     ob["wf"] = "%s: %s" % (type(e).__name__, str(e)[:80])
